@@ -40,6 +40,9 @@ Fixpoint url_host (s : str) : str :=
   | c :: s' => if is_auth_end c then [] else c :: url_host s'
   end.
 
+(* the Host header net/http sends for a request whose Host field is h and whose URL host is t *)
+Definition preserved_host (h t : str) : str := match h with [] => t | _ => h end.
+
 Definition ping_path : str := [47;112;105;110;103].   (* "/ping" *)
 
 Inductive route :=
@@ -171,11 +174,13 @@ Definition target (host : str) (u : upstream) : str :=
   | Rewrite from to => url_host (re_replace from host to)
   end.
 
-(* DirectorFunc, reverse_proxy.go:157-160 *)
+(* DirectorFunc, reverse_proxy.go:157-160: req.Host is left alone under preserve_host, else set to
+   the target's. net/http then writes "Host: req.Host", or the URL's host when req.Host is empty
+   (Request.write), which is what a backend sees for an empty Host under preserve_host. *)
 Definition forward (u : upstream) (q : request) (user : option str) : response :=
   let t := target (q_host q) u in
   {| r_kind := KForward; r_target := Some t;
-     r_fwd_host := Some (if u_preserve u then q_host q else t);
+     r_fwd_host := Some (if u_preserve u then preserved_host (q_host q) t else t);
      r_user := user; r_cookie := CkNone; r_slug := None |}.
 
 Definition whitelisted (u : upstream) (q : request) : bool :=
